@@ -14,8 +14,8 @@ LEAN_MODULES = ['Pfst.Props.C13', 'Pfst.Props.C13Options']
 LEAN_DEPS = ['Pfst.Reconcile', 'Pfst.ReconcileLemmas']
 THEOREMS = [
     'Pfst.C13.frame', 'Pfst.C13.fallback_overrides', 'Pfst.C13.foreign_ok_correct', 'Pfst.C13.fields_scalar_correct',
-    'Pfst.C13.trace_correct_partial', 'Pfst.C13.trace_correct_false', 'Pfst.C13.untouched_silent',
-    'Pfst.C13.no_change_false', 'Pfst.C13.rounds',
+    'Pfst.C13.trace_correct_partial', 'Pfst.C13.pyNe_exact', 'Pfst.C13.conflation_seen', 'Pfst.C13.untouched_silent',
+    'Pfst.C13.no_change_scalar_elems', 'Pfst.C13.rounds',
     # full statements (mutual structural induction, Pfst/ReconcileCorrect.lean, ReconcileQuiet.lean, ReconcileKept.lean)
     'Pfst.C13.node_correct', 'Pfst.C13.intree_never_fails', 'Pfst.C13.children_correct', 'Pfst.C13.slice_correct',
     'Pfst.C13.slice_correct_ast', 'Pfst.C13.dict_correct', 'Pfst.C13.trace_correct', 'Pfst.C13.rounds_correct', 'Pfst.C13.untouched_silent_full',
@@ -42,16 +42,18 @@ RULE = ('corpus programs (snippets covering every node type, generated programs,
         'distinct = distinct (program, mutation script, caller options); non-trivial = the trace is not empty')
 TRUSTED = [
     'modelled (Pfst/Reconcile.lean): Reconcile.recurse_node (in-tree in place / off path / other tree verified / other tree '
-    'unverified / pure AST; the except -> put_node retry), recurse_children (ctx/str skipped, scalar `!=` comparison, the slice '
+    'unverified / pure AST; unchanged None / identifier list elements left alone (repair of F8); the except -> put_node retry), '
+    'recurse_children (ctx/str skipped, scalar comparison by value AND type (repair of F1), the slice '
     'field name list, Dict -> recurse_slice_dict, different-length NotImplementedError), recurse_slice and recurse_slice_dict '
     '(first-element condition, contiguous-run detection, other-tree verification of the run, insertion past the end, tail '
     'deletion), put_node, _SLICE_COMAPTIBILITY (read from the imported module on every run)',
     'not modelled: what put / put_slice / replace / copy / get_slice do to the source text (C03-C08); their failures are '
     'observed as raised ops and accepted only in the shape of the documented retry at the parent; verify(reparse=False) is '
-    're-implemented in the harness (link check) and its verdict is an input of the model',
+    're-implemented in the harness (link check) and, for the reparse of the copy added by the repair of F2, by a comparison with '
+    'CPython\'s parse of the other tree\'s source; the verdict is an input of the model',
     'the serialiser (harness/c13_lib.py Ser): origin tags from node.f / f.root / f.parent / f.pfield, Dict as a list of '
     '(key, value) pairs, ctx and str fields dropped, primitive values as (Python == class, exact type+repr)',
-    'excluded inputs: programs with a keyword-only lambda parameter inside an f-string (C13-F8); list edits of unparenthesised '
+    'excluded inputs: list edits of unparenthesised '
     'tuples written with backslash continuations (C13-F7); deletions in Global / Nonlocal names lists written with a backslash '
     'continuation (C13-F10); in-tree nodes moved under nodes of other trees (C13-F5); primitive / '
     'optional-field / list edits inside nodes of other trees (C13-F2); mutation targets inside f-strings, patterns, subscript slices, decorators, Store/Del targets; Starred and '
@@ -73,16 +75,18 @@ ASSUMPTIONS = [
     'trees are != 0, list elements are not lists, the (key, value) pairs of a Dict have a key that is a node or None and a pair '
     'origin consistent with what recurse_slice_dict reads off values[i].f / keys[i].f (the serialiser computes it that way); '
     'evaluated by the driver per case (`wf`, tallied as theorem_hypothesis)',
-    'primOK (part of wfN): Python == on the primitives compared by recurse_children coincides with identity of type and value; '
-    'false in general (trace_correct_false, finding C13-F1)',
-    'stillN (hypothesis of no_change / untouched_silent_full): all nodes in place, scalars == the marked ones, list fields of the '
-    'marked length holding nodes only (None / str list elements are re-put on every reconcile: no_change_false, C13-F8); Dict '
-    'pairs in place with key and value in place (None key over None key)',
+    'no hypothesis about primitive values is left in wfN: since the repair of C13-F1 recurse_children compares value AND type, the '
+    'model compares the whole (== class, type+repr) pair (pyNe_exact); the serialiser identifies nothing but signed zeros '
+    '(0.0 / -0.0 are == and of one type; Constant(-0.0) has no source form and is not generated)',
+    'stillN (hypothesis of no_change / untouched_silent_full): all nodes in place, scalars (fields and None / str list elements: '
+    'Global.names, kw_defaults) the marked ones, list fields of the marked length; Dict pairs in place with key and value in '
+    'place (None key over None key); since the repair of C13-F8 it holds on every unedited tree of the sweep (cross-checked)',
     'keptN (hypothesis of untouched_kept): the ancestors of the untouched subtree are in place and recurse_children of none of '
     'them raises (otherwise the documented retry puts the ancestor as a pure AST and the formatting below it is lost); no Dict '
     'list on the path itself (statements are never inside a Dict)',
-    'a copy of a verified node of another tree has the structure of that node (false when only primitives were changed there: '
-    'finding C13-F2)',
+    'a copy of a verified node of another tree has the structure of that node: since the repair of C13-F2 the copy is reparsed '
+    '(copy().verify()); the harness decides the `ok` flag of the model by the link check AND by comparing the subtree with '
+    'CPython\'s parse of the other tree\'s source at the same path (c13_lib.same_as_source)',
 ]
 LEVEL_TEXT = ('Lean 4 theorems about an executable model of the reconcile diff, proved by mutual structural induction over the '
               'nested tree type: for EVERY marked/edited pair meeting the decidable side condition wfN (any size, any '
@@ -264,9 +268,6 @@ def _run_case_inner(arg):
         return res
     if L.util.tree_equals_parse(f) is not None:
         res['skip'] = 'initial tree != parse'
-        return res
-    if mode not in WITNESS and _fstring_kwonly(f.a):
-        res['skip'] = 'keyword-only lambda inside an f-string (C13-F8)'
         return res
     if mode in WITNESS:
         src = WITNESS[mode][0]
@@ -515,6 +516,10 @@ def _judge(ctx, results, name='reconcile trace vs Pfst.Reconcile.reconcile', sea
             ctx.brk('proof', 'Pfst.C13.trace_correct', f'driver: wfN holds, no failure, but applyOps trace != erase edited on {key}')
         if not muts:
             ctx.tally('theorem_hypothesis', 'no_change: stillN ' + ('holds' if m.get('still') else 'fails'))
+            if not m.get('still') and res['mode'] == 'nochange':
+                ctx.brk('correspondence', 'stillN on an unedited tree', f'the serialised unedited tree does not meet stillN on {key}')
+        if not wf and res['mode'] == 'prim_conflate':
+            ctx.brk('correspondence', 'wfN on a primitive change', f'wfN fails on a pure primitive change (no primitive hypothesis is left) on {key}')
         if m.get('still') and m['ops']:
             ctx.brk('proof', 'Pfst.C13.no_change', f'driver: stillN holds but the trace is not empty on {key}')
         for kp, tc in zip(m.get('kept', []), m.get('touched', [])):
@@ -523,9 +528,8 @@ def _judge(ctx, results, name='reconcile trace vs Pfst.Reconcile.reconcile', sea
                 ctx.brk('proof', 'Pfst.C13.untouched_kept', f'driver: keptN and wfN hold but an operation touches the path on {key}')
         if not m.get('res_ok', True) and not m.get('fail'):
             ctx.tally('model_result_ne_edited', res['mode'])
-            if res['mode'] != 'prim_conflate':
-                st = 'differ'
-                detail = 'model: applyOps trace (erase mark) != erase edited (WF / PrimExact hypothesis false on this input)'
+            st = 'differ'
+            detail = 'model: applyOps trace (erase mark) != erase edited (wfN false on this input?)'
         if st == 'differ':
             bad += 1
             if len(ctx.corr_disagreements) < 20:
@@ -789,9 +793,9 @@ def replay(ctx, data):
     env = w.get('env')
     if env:
         env = {k: (tuple(v) if isinstance(v, list) else v) for k, v in env.items()}
-    res = _run_case((w['src'], w['seed'], w.get('mode', 'normal'), None, env))
+    res = _run_case((w['src'], w.get('seed', 0), w.get('mode', 'normal'), None, env))
     if env and w.get('default_src') is not None:
-        base = _run_case((w['src'], w['seed'], w.get('mode', 'normal'), None))
+        base = _run_case((w['src'], w.get('seed', 0), w.get('mode', 'normal'), None))
         for Rb, Re in zip(base.get('rounds', []), res.get('rounds', [])):
             if 'result_src' in Rb and 'result_src' in Re and Rb['result_src'] != Re['result_src']:
                 ctx.fail('replay', 'result source depends on the caller options ' + env_name(env), w)
